@@ -91,6 +91,22 @@ impl Ref {
                 time_time(&v.time()),
                 offset_text(v.offset().whole_seconds())
             ),
+            // an array value: the empty array as the constant '{}', else an ARRAY constructor of its elements
+            Value::Array(_, Some(items)) => {
+                if items.is_empty() {
+                    "'{}'".into()
+                } else {
+                    format!("ARRAY [{}]", items.iter().map(|i| self.lit(i)).collect::<Vec<_>>().join(","))
+                }
+            }
+            // a decimal is written with the scale it has
+            Value::Decimal(Some(v)) => {
+                let (m, sc) = (v.mantissa(), v.scale() as usize);
+                let digits = m.unsigned_abs().to_string();
+                let digits = if digits.len() <= sc { format!("{}{digits}", "0".repeat(sc + 1 - digits.len())) } else { digits };
+                let (int, frac) = digits.split_at(digits.len() - sc);
+                format!("{}{int}{}{frac}", if v.is_sign_negative() { "-" } else { "" }, if sc > 0 { "." } else { "" })
+            }
             Value::Uuid(Some(u)) => {
                 let h = format!("{:032x}", u.as_u128());
                 format!("'{}-{}-{}-{}-{}'", &h[0..8], &h[8..12], &h[12..16], &h[16..20], &h[20..32])
